@@ -574,3 +574,77 @@ def uring_send_buffers(fx):
             bad.add("entry tagged with %s" % tag)
     yield ob("R-C06-8", "send#uring#buffer_busy_and_tagged", n >= 1 and not bad, s, None,
              "%d Ok path(s): chosen buffer marked busy, submission tagged with its index; deviations: %s" % (n, sorted(bad)), {"paths": n})
+
+
+@PROP.rule("R-C06-9", floor=1, doc="uring receive side: each completion is handled with the helper, the socket family and the re-arm entry of the socket it came from")
+def uring_recv_arms(fx):
+    R = "aquatic_udp::workers::socket::uring::recv_helper::"
+    fam = {}
+    bad = set()
+    for v, fd, hdr in (("v4", "0", "msghdr_v4"), ("v6", "1", "msghdr_v6")):
+        c = fx.fn(R + "RecvHelper%s::create_entry" % v.upper())
+        rets = {show(strip_after(p.ret)) for p in cpaths(fx, c) if p.end == "return" and p.ret is not None}
+        m = [re.match(r"^Entry::user_data\(RecvMsgMulti::build\(RecvMsgMulti::new\((\d+):io_uring::types::Fixed, self\.(\w+), buf_group\)\), (\d+):u64\)$", r) for r in rets]
+        if len(rets) != 1 or not m[0] or m[0].group(1) != fd or m[0].group(2) != hdr:
+            bad.add("create_entry(%s) = %s" % (v, sorted(rets)[:1]))
+            continue
+        fam[m[0].group(3)] = v
+    if len(fam) != 2:
+        bad.add("the two receive entries do not carry two distinct tags: %s" % fam)
+    # the worker stores the v4 entry in recv_sqe_ipv4 and the v6 entry in recv_sqe_ipv6
+    run = fx.fn("aquatic_udp::workers::socket::uring::SocketWorker::run")
+    stored = set()
+    for p in cpaths(fx, run):
+        for e in p.effects:
+            if e[0] == "agg" and str(e[1]).endswith("uring::SocketWorker"):
+                pass
+        for e in p.calls(r"CurrentRing::with$"):
+            s = show(e[2][0])
+            for f4, f6 in re.findall(r"recv_sqe_ipv4: (RecvHelperV\d)::create_entry\(.*?recv_sqe_ipv6: (RecvHelperV\d)::create_entry\(", s):
+                stored.add((f4, f6))
+    if stored != {("RecvHelperV4", "RecvHelperV6")}:
+        bad.add("worker fields (recv_sqe_ipv4, recv_sqe_ipv6) built by %s" % sorted(stored))
+    h = fx.fn("aquatic_udp::workers::socket::uring::SocketWorker::handle_cqe")
+    n = 0
+    for p in cpaths(fx, h):
+        if p.end != "return":
+            continue
+        rc = p.calls(r"SocketWorker::handle_recv_cqe$")
+        if not rc:
+            continue
+        n += 1
+        tags = []
+        for a in p.atoms:
+            t = sym.atom_text(fx, a)
+            m = re.match(r"^Entry::user_data\(cqe\) == (\d+)$", t)
+            if m:
+                tags.append(m.group(1))
+        v = fam.get(tags[0]) if len(tags) == 1 else None
+        if v is None:
+            bad.add("receive completion not selected by one of the two receive tags: %s" % tags)
+            continue
+        flag = show(strip_after(rc[0][2][2]))
+        if len(rc) != 1 or flag != ("1:bool" if v == "v4" else "0:bool"):
+            bad.add("%s completion handled with received_on_ipv4_socket = %s" % (v, flag))
+        rearm = [show(strip_after(e[2][1])) for e in p.calls(r"Vec.*::push$") if "resubmittable_sqe_buf" in show(e[2][0])]
+        if any(not re.match(r"^self'*\.recv_sqe_ip%s$" % v, x) for x in rearm):
+            bad.add("%s completion re-arms %s" % (v, rearm))
+        more = [sym.atom_bool(a) for a in p.atoms]
+        more = [x[1] for x in more if x and show(strip_after(x[0])) == "more(Entry::flags(cqe))"]
+        if more and more[0] is False and len(rearm) != 1:
+            bad.add("%s multishot ended (no MORE flag) but the receive is re-armed %d times" % (v, len(rearm)))
+    # handle_recv_cqe picks the helper of that family
+    hr = fx.fn("aquatic_udp::workers::socket::uring::SocketWorker::handle_recv_cqe")
+    k = 0
+    for p in cpaths(fx, hr):
+        pc = p.calls(r"RecvHelper::parse$")
+        if not pc:
+            continue
+        k += 1
+        fl = [x[1] for x in (sym.atom_bool(a) for a in p.atoms) if x and fp(x[0]) == "received_on_ipv4_socket"]
+        recv = show(strip_after(pc[0][2][0]))
+        if len(fl) != 1 or recv != ("self.recv_helper_v4" if fl[0] else "self.recv_helper_v6"):
+            bad.add("received_on_ipv4_socket=%s parsed by %s" % (fl, recv))
+    yield ob("R-C06-9", "recv#uring#family_arms", n >= 8 and k >= 2 and not bad, h, None,
+             "tags %s; %d receive-completion paths and %d parse sites: flag, helper and re-armed entry all belong to the socket the completion came from; "
+             "a finished multishot receive is re-armed exactly once; deviations: %s" % (fam, n, k, sorted(bad)[:3]), {"paths": n, "parse_sites": k})
